@@ -100,11 +100,24 @@ def main(tier, seed, replay=None):
     for tag, f in builders:
         root = f(); assign_ids(root)
         tab = G.Table(root)
-        before = json.dumps(tab.brief())
+        def snapshot():
+            t_ = G.Table(root)
+            return json.dumps([t_.brief(), [None if o.id is None else int(o.id) for o in t_.objs]]), [id(o) for o in t_.objs]
+        before, before_objs = snapshot()
         dom = tab.domains(); scope = sorted(tab.root_scope()); width = max(scope) + 1
         pruned = prune(root, copy=True)
-        if json.dumps(G.Table(root).brief()) != before:
-            rep.violation(dict(kind="original-changed-with-copy-true", circuit=json.loads(before)), True)
+        try:
+            after, _ = snapshot()
+        except Exception as e:
+            after = f"unreadable: {type(e).__name__}: {e}"
+        shared = [int(o.id) for o in G.post_order(pruned) if id(o) in set(before_objs)]
+        if after != before or shared:
+            nch = dist.get("original_changed", 0); dist["original_changed"] = nch + 1
+            if nch < 3:
+                rep.violation(dict(kind="original-changed-with-copy-true", circuit=json.loads(before)[0],
+                                   ids_before=json.loads(before)[1], original_afterwards=after[:1200],
+                                   result_shares_node_objects_with_the_original=shared[:10]), True)
+            continue
         ptab = G.Table(pruned)
         rows = c01.missing_rows(rs, scope, dom, "quick")[:24]
         X = np.array([G.np_row(c, width, {}) for c in rows], dtype=np.float32)
